@@ -26,8 +26,9 @@ MANIFEST = dict(
          "and struct instances, compared after every statement; the machine is tied to /repo by C02's Rc-graph comparison.",
     note="Theorems cover the fragment `frag` (slot assignment, `every` assignment through slices, op-assign with append/++/+/|./-./||/|.. also with a default `(x[p][k] = d) f= e`, "
          "pop/remove/consume, swap, for-loops, update expressions, mutating calls, getter closures), i.e. every form of the statement "
-         "language except non-`every` slice assignment (todo!() in the interpreter, F11) and the two forms `every x[p] f= e` and "
-         "`(x and y) f= e`, which are NOT covered by the theorems, only by the correspondence and C02's graph comparison. Trusted: Coq kernel; hand-written machine "
+         "language except non-`every` slice assignment (todo!() in the interpreter, F11) and the form `every x[p] f= e` "
+         "(modify_every), which is NOT covered by the theorems, only by the correspondence and C02's graph comparison; the and-pattern "
+         "op-assign `(x and y) f= e` is covered. Trusted: Coq kernel; hand-written machine "
          "Rc/Cow.v and spec Rc/ValueSem.v (tie to the code is differential testing on generated histories + C02's graph isomorphism); "
          "extraction + OCaml runner; Rust harness; Python generator/renderer. Builtins other than the consuming ones are outside the model.",
     design="6-C01")
